@@ -95,11 +95,13 @@ class Monitor:
             return False
 
     def run(self, text, setting=(True, True), entry='parseString', stream='', features=(), encoding=None, href=None, fetcher=None,
-            steps_out=None, cpu=20, check_steps=True):
+            steps_out=None, cpu=20, check_steps=True, case_extra=None):
         """one monitored execution: parse -> serialise -> reparse -> serialise"""
         ctx, c = self.ctx, self.c
         ctx.count('evaluations')
         case = {'kind': 'parse', 'entry': entry, 'text': text, 'setting': list(setting), 'encoding': encoding}
+        if case_extra:
+            case.update(case_extra)
         core.canonical_state(c)
         sent = core.Sentinels(c)
         n = len(text)
@@ -343,10 +345,23 @@ FAMILIES = {
     'len.slash-stars': (lambda k: '/*/' * k + 'a{x:y}', 100),
     'nest.var-fallback': (lambda k: 'a{b:' + 'var(x,' * k + '1' + ')' * k + '}', 60),
     'nest.var-fallback-open': (lambda k: 'a{b:' + 'var(x,' * k, 60),
+    'nest.var-chain': (lambda k: '@variables{' + ''.join('v%d:var(v%d);' % (i, i + 1) for i in range(k)) + 'v%d:1px}a{b:var(v0)}' % k, 60),
+    'nest.var-chain-cyclic': (lambda k: '@variables{' + ''.join('v%d:var(v%d);' % (i, (i + 1) % k) for i in range(k)) + '}a{b:var(v0)}', 60),
     'len.digits': (lambda k: 'a{x:' + '9' * (k * 100) + ';y:1}', 60),
     'len.digits-fraction': (lambda k: 'a{x:' + '9' * (k * 10) + '.5;y:1}', 60),
     'len.digits-dimension': (lambda k: 'a{x:' + '9' * (k * 10) + '.5px 1' + '0' * (k * 10) + 'em}', 60),
     'len.fraction-digits': (lambda k: 'a{x:0.' + '0' * (k * 10) + '1}', 60),
+    # numbers that take part in arithmetic: colour channels, hue, percentages, calc(), an+b, media features, unicode ranges
+    'len.digits-rgb': (lambda k: 'a{color:rgb(' + '9' * (k * 10) + ',0,0);y:1}', 60),
+    'len.digits-rgb-percent': (lambda k: 'a{color:rgb(' + '9' * (k * 10) + '%,0%,0%);y:1}', 60),
+    'len.digits-rgb-percent-fraction': (lambda k: 'a{color:rgba(' + '9' * (k * 10) + '.5%,0%,0%,' + '9' * (k * 10) + ');y:1}', 60),
+    'len.digits-hsl-hue': (lambda k: 'a{color:hsl(' + '9' * (k * 10) + ',10%,10%);y:1}', 60),
+    'len.digits-hsl-hue-fraction': (lambda k: 'a{color:hsla(-' + '9' * (k * 10) + '.5,10%,' + '9' * (k * 10) + '%,1);y:1}', 60),
+    'len.digits-calc': (lambda k: 'a{width:calc(' + '9' * (k * 10) + 'px * ' + '9' * (k * 10) + '.5 / 0)}', 60),
+    'len.digits-nth': (lambda k: 'a:nth-child(' + '9' * (k * 10) + 'n+' + '9' * (k * 10) + '){x:1}', 60),
+    'len.digits-media': (lambda k: '@media (min-width:' + '9' * (k * 10) + 'px) and (aspect-ratio:' + '9' * (k * 10) + '/' + '9' * (k * 10) + '){a{x:1}}', 60),
+    'len.digits-urange': (lambda k: 'a{x:U+' + 'F' * min(k, 12) + '-' + '9' * min(k, 12) + ';y:1}', 30),
+    'len.digits-hash': (lambda k: 'a{color:#' + 'f' * k + ';y:1}', 60),
     'len.exponent': (lambda k: 'a{x:1e' + '9' * k + '}', 60),
     'len.backslashes': (lambda k: 'a{x:' + '\\\\' * k + '}', 100),
     'len.backslash-newlines': (lambda k: 'a{x:"' + '\\\n' * k + '"}', 100),
@@ -402,6 +417,28 @@ def stream_sweeps(ctx, mon):
                     break
 
 
+VARIABLE_SHEETS = [
+    '@variables{a:var(b);b:var(a)}x{color:var(a)}', '@variables{a:var(a)}x{color:var(a)}', '@variables{a:var(b,var(a))}x{color:var(a);top:var(c,var(a))}',
+    '@variables{a:var(b)}@variables{b:var(c)}@variables{c:var(a)}x{margin:var(a) var(b) var(c)}', '@variables{a:calc(var(a) + 1px)}x{width:var(a)}',
+    '@variables{a:var(b);b:var(c);c:var(d);d:1px}x{width:calc(var(a) * 2)}', '@variables{A:1px;a:var(A)}x{width:var(a)}', '@variables{a:var(}x{width:var(a)}',
+    '@variables{a:}x{width:var(a)}', '@variables{a:1px}x{width:var()}', '@variables{a:1px}x{width:var(a,)}', '@variables{a:1px}x{width:var(a b)}', '@variables{a:var(b) var(b);b:var(a) var(a)}x{m:var(a)}',
+    'x{width:var(a)}@variables{a:var(b)}y{width:var(b,var(a))}', '@variables{a:url(var(a))}x{b:var(a)}', '@variables{a:"var(a)"}x{b:var(a)}', '@variables print{a:var(b);b:var(a)}x{b:var(a)}',
+    '@media print{@variables{a:var(a)}x{b:var(a)}}', '@variables{a:var(b)}@media print{x{b:var(a,var(b,var(a)))}}', '@variables{\\61:var(a)}x{b:var(\\61)}',
+]  # fmt: skip
+
+
+def stream_variables(ctx, mon):
+    """variable definitions that refer to themselves, to each other, to nothing; with and without an imported definition of the same names"""
+    cases = [(t, s, imp) for t in VARIABLE_SHEETS for s in SETTINGS for imp in (False, True)]
+    for i, (t, s, imp) in ctx.share(cases):
+        ctx.count('variables.cases')
+        if imp:
+            fetcher = lambda url: ('utf-8', b'@variables{a:var(b);b:var(c);c:var(a);d:var(d)}')  # noqa: E731
+            mon.run('@import "v.css";' + t, s, stream='v', href='http://h/d/a.css', fetcher=fetcher, features=['variables.imported'], check_steps=False)
+        else:
+            mon.run(t, s, stream='v', features=['variables'])
+
+
 def stream_charset_names(ctx, mon):
     """every codec name Python knows (text encodings or not) in an @charset rule of a text and of a byte document"""
     import encodings.aliases
@@ -448,53 +485,81 @@ def stream_bytes(ctx, mon, count):
         mon.run(b, rng.choice(SETTINGS), stream='e', encoding=given)
 
 
+FETCH_GRAPHS = [
+    {'a.css': '@import "b.css";a{x:1}', 'b.css': 'b{y:2}'},
+    {'a.css': '@import "b.css";a{x:1}', 'b.css': '@import "c.css";b{}', 'c.css': 'c{z:url(i.png)}'},
+    {'a.css': '@import "b.css";@import "c.css";', 'b.css': '@import "c.css";', 'c.css': 'c{}'},
+    {'a.css': '@import "a.css";a{}'},
+    {'a.css': '@import "b.css";a{}', 'b.css': '@import "a.css";b{}'},
+    {'a.css': '@import "b.css";', 'b.css': '@import "c.css";', 'c.css': '@import "a.css";c{}'},
+]
+FETCH_MODES = ['content', 'none', 'nonepair', 'empty-tuple', 'text-instead-of-bytes', 'encoding-none', 'undecodable', 'missing',
+               # what a server or a file can answer: a charset nobody knows, a codec that is no text encoding, nothing at all, conflicting hints
+               'unknown-http-charset', 'unknown-at-charset', 'non-text-codec', 'empty-bytes', 'bom-against-http', 'charset-name-garbage', 'at-charset-undecodable']  # fmt: skip
+
+
+def make_fetcher(g, mode, log):
+    def fetcher(url):
+        log.append(url)
+        name = url.rsplit('/', 1)[-1]
+        if mode == 'none':
+            return None
+        if mode == 'nonepair':
+            return (None, None)
+        if mode == 'empty-tuple':
+            return ()
+        if mode == 'missing' or name not in g:
+            return None
+        if mode == 'text-instead-of-bytes':
+            return ('utf-8', g[name])
+        if mode == 'encoding-none':
+            return (None, g[name].encode('utf-8'))
+        if mode == 'undecodable':
+            return ('utf-8', b'\xff\xfe\xff' + g[name].encode('utf-8'))
+        if mode == 'unknown-http-charset':
+            return ('x-no-such-charset-zz', g[name].encode('utf-8'))
+        if mode == 'unknown-at-charset':
+            return (None, b'@charset "x-no-such-charset-zz";' + g[name].encode('utf-8'))
+        if mode == 'non-text-codec':
+            return (['rot13', 'hex', 'zlib', 'base64', 'undefined', 'idna'][len(log) % 6], g[name].encode('utf-8'))
+        if mode == 'empty-bytes':
+            return (None, b'')
+        if mode == 'bom-against-http':
+            return ('ascii', b'\xef\xbb\xbf' + g[name].encode('utf-8') + 'é{}'.encode('utf-8'))
+        if mode == 'charset-name-garbage':
+            return (['', ' ', 'utf-8\x00', 'utf 8', '"utf-8"', 'é', 'a' * 300][len(log) % 7], g[name].encode('utf-8'))
+        if mode == 'at-charset-undecodable':
+            return (None, b'@charset "ascii";' + g[name].encode('utf-8') + b'\xe9{}')
+        return ('utf-8', g[name].encode('utf-8'))
+
+    return fetcher
+
+
+def fetch_case(mon, gi, mode, setting):
+    g = FETCH_GRAPHS[gi]
+    cyclic = gi >= 3
+    feats = ['fetcher.mode.' + mode]
+    if cyclic and mode in ('content', 'text-instead-of-bytes', 'encoding-none', 'bom-against-http'):
+        feats.append('import.cycle')
+    if mode == 'empty-tuple':
+        feats.append('fetcher.empty-tuple')
+    if mode == 'text-instead-of-bytes':
+        feats.append('fetcher.text-instead-of-bytes')
+    mon.ctx.count('fetcher.cases')
+    mon.ctx.count('fetcher.mode.' + mode)
+    mon.run(g['a.css'], setting, stream='f', href='http://h/d/a.css', fetcher=make_fetcher(g, mode, []), features=feats, check_steps=False,
+            case_extra={'fetch': [gi, mode]})
+
+
 def stream_fetchers(ctx, mon, count):
-    graphs = [
-        {'a.css': '@import "b.css";a{x:1}', 'b.css': 'b{y:2}'},
-        {'a.css': '@import "b.css";a{x:1}', 'b.css': '@import "c.css";b{}', 'c.css': 'c{z:url(i.png)}'},
-        {'a.css': '@import "b.css";@import "c.css";', 'b.css': '@import "c.css";', 'c.css': 'c{}'},
-        {'a.css': '@import "a.css";a{}'},
-        {'a.css': '@import "b.css";a{}', 'b.css': '@import "a.css";b{}'},
-        {'a.css': '@import "b.css";', 'b.css': '@import "c.css";', 'c.css': '@import "a.css";c{}'},
-    ]
-    modes = ['content', 'none', 'nonepair', 'empty-tuple', 'text-instead-of-bytes', 'encoding-none', 'undecodable', 'missing']
-    for i in range(count):
+    # every (graph, answer mode) pair once, then random settings
+    pairs = [(gi, m) for gi in range(len(FETCH_GRAPHS)) for m in FETCH_MODES]
+    for i in range(max(count, len(pairs))):
         if not ctx.mine(i):
             continue
         rng = ctx.rng('fetch', i)
-        g = rng.choice(graphs)
-        mode = rng.choice(modes)
-        cyclic = g in graphs[3:]
-        log = []
-
-        def fetcher(url, g=g, mode=mode, log=log):
-            log.append(url)
-            name = url.rsplit('/', 1)[-1]
-            if mode == 'none':
-                return None
-            if mode == 'nonepair':
-                return (None, None)
-            if mode == 'empty-tuple':
-                return ()
-            if mode == 'missing' or name not in g:
-                return None
-            if mode == 'text-instead-of-bytes':
-                return ('utf-8', g[name])
-            if mode == 'encoding-none':
-                return (None, g[name].encode('utf-8'))
-            if mode == 'undecodable':
-                return ('utf-8', b'\xff\xfe\xff' + g[name].encode('utf-8'))
-            return ('utf-8', g[name].encode('utf-8'))
-
-        feats = []
-        if cyclic and mode in ('content', 'text-instead-of-bytes', 'encoding-none'):
-            feats.append('import.cycle')
-        if mode == 'empty-tuple':
-            feats.append('fetcher.empty-tuple')
-        if mode == 'text-instead-of-bytes':
-            feats.append('fetcher.text-instead-of-bytes')
-        ctx.count('fetcher.cases')
-        mon.run(g['a.css'], rng.choice(SETTINGS), stream='f', href='http://h/d/a.css', fetcher=fetcher, features=feats, check_steps=False)
+        gi, mode = pairs[i] if i < len(pairs) else (rng.randrange(len(FETCH_GRAPHS)), rng.choice(FETCH_MODES))
+        fetch_case(mon, gi, mode, rng.choice(SETTINGS))
 
 
 def run_worker(ctx):
@@ -510,6 +575,7 @@ def run_worker(ctx):
     stream_shipped(ctx, mon, 8 if quick else 300)
     stream_bytes(ctx, mon, 1500 if quick else 40000)
     stream_fetchers(ctx, mon, 300 if quick else 6000)
+    stream_variables(ctx, mon)
     mon.meter.uninstall()
 
 
@@ -532,6 +598,9 @@ def replay(ctx, case):
             mon.run(text, steps_out=out, features=FAMILY_FEATURES.get(case['family'], []) + ['sweep.' + case['family']])
             return
         feats = case.get('features', ())
+        if case.get('fetch'):
+            fetch_case(mon, case['fetch'][0], case['fetch'][1], tuple(case.get('setting', (True, True))))
+            return
         mon.run(case['text'], tuple(case.get('setting', (True, True))), entry=case.get('entry', 'parseString'), encoding=case.get('encoding'), features=feats)
     finally:
         mon.meter.uninstall()
